@@ -151,6 +151,19 @@ KID_MENU = ['newleaf', 'newtree', 'cached1', 'cached2', 'cached0', 'usedid', 'ba
 ROOT_MODES = ['store_fresh', 'overwrite_fresh', 'overwrite_cached0', 'overwrite_cached1', 'store_used']
 
 
+def cycle_case(backend, variant):
+    """a stale cached object: store y->[a]; overwrite a := a'->[b]; overwrite b := b'->[y]  (y -> a' -> b' -> y)"""
+    s = Scn(backend)
+    a_old = s.obj(1)
+    y = s.obj(2, [a_old], wrap=[variant % 2 == 1])
+    s.history.append({'op': 'store', 't': y})
+    b = s.obj(3)
+    a_new = s.obj(1, [b] if variant < 2 else [b, s.obj(4)])
+    s.history.append({'op': 'overwrite', 't': a_new})
+    b_new = s.obj(3, [y] if variant < 2 else [s.obj(5), y])
+    return s.case({'op': 'overwrite', 't': b_new}, 'cycle')
+
+
 def enum_case(backend, preset, root_mode, kid_kinds, cleared, fault='raise'):
     s = Scn(backend, fault)
     cached = {}
@@ -281,6 +294,9 @@ def gen_cases(rng, tier, ctx):
                 c['final'] = {'op': 'delete', 'id': victim}
                 c['note'] = 'enum delete'
                 cases.append(c)
+    for b in backends:
+        for variant in range(4 if tier == 'thorough' else 2):
+            cases.append(cycle_case(b, variant))
     # caching wrapper around the directory backend
     for kk in (['newleaf'], ['newtree', 'cached1'], ['cached2', 'newleaf']):
         for rm in ('store_fresh', 'overwrite_cached0'):
@@ -333,6 +349,25 @@ def _consistent(case):
         if seen.setdefault(ident, d) != d:
             return False
     return True
+
+
+def _has_cycle(obs):
+    """some observed state of the final operation has a reference cycle although the storage had none before"""
+    def cyc(o):
+        g = {e[0]: (e[1][1] if e[1] else []) for e in o['entries']}
+        state = {}
+
+        def visit(n):
+            if state.get(n) == 1:
+                return True
+            if state.get(n) == 2 or n not in g:
+                return False
+            state[n] = 1
+            r = any(visit(m) for m in g[n])
+            state[n] = 2
+            return r
+        return any(visit(n) for n in g)
+    return not cyc(obs['before']) and any(cyc(o) for o in [obs['after']] + [c['obs'] for c in obs['crashes']])
 
 
 def spec_failures(case, obs):
@@ -389,6 +424,8 @@ def classify(case, obs):
         return None
     if not _consistent(case):
         return 'dup-id-in-transaction'
+    if _has_cycle(obs):
+        return 'overwrite-creates-cycle'
     wheres = {w for w, _, _ in fl}
     if wheres == {'no-failure run'} or any(cl == 'c' for _, cl, _ in fl):
         return None
